@@ -52,6 +52,8 @@ def native_walk(x, path="$"):
 
 
 def json_unrepresentable(spec: G.ModelSpec, exprs) -> str | None:
+    if sum(1 for f in spec.fields if "samename" in f.tags) > 1:
+        return "two fields with the same local name collide on one JSON key"
     for f, e in zip(spec.fields, exprs):
         if f.cat == "elements" and "XmlDate(" in e:
             return "compound choice that needs an intermediate simple type (documented JSON limitation)"
